@@ -135,6 +135,7 @@ Definition mk_env (children : list (option N * list (N * option N) * option N * 
   mkEnv (fun c => match nth_or_last (None, [], None, false) children c with (se, _, _, _) => se end)
         (fun c sig => match nth_or_last (None, [], None, false) children c with
                       | (_, rs, dflt, ign) =>
+                          if N.eqb sig 9 then RDie 0 else          (* SIGKILL cannot be caught or ignored *)
                           if ign then RIgnore else
                           match find (fun r => N.eqb (fst r) sig) rs with
                           | Some (_, Some d) => RDie d
